@@ -3,6 +3,7 @@ package idxhdr
 import (
 	"context"
 	"fmt"
+	"io"
 	"math/rand"
 	"os"
 	"path/filepath"
@@ -14,7 +15,9 @@ import (
 	"time"
 
 	"github.com/go-kit/log"
+	"github.com/pkg/errors"
 	"github.com/prometheus/prometheus/tsdb/index"
+	"github.com/thanos-io/objstore"
 
 	"github.com/thanos-io/thanos/pkg/block/indexheader"
 	"github.com/thanos-io/thanos/pkg/verifhook"
@@ -35,6 +38,56 @@ import (
 // ---------------------------------------------------------------------------------------------
 
 const c16Stall = 30 * time.Second
+
+// slowLogger widens every window in which the code under test logs (a logger may block: a full
+// stderr pipe, a slow sink): each Log call yields or sleeps for a seeded few hundred microseconds.
+type slowLogger struct {
+	mu  sync.Mutex
+	rnd *rand.Rand
+}
+
+func (l *slowLogger) Log(...interface{}) error {
+	l.mu.Lock()
+	d := time.Duration(l.rnd.Intn(400)) * time.Microsecond
+	y := l.rnd.Intn(3) == 0
+	l.mu.Unlock()
+	if y {
+		runtime.Gosched()
+	} else {
+		time.Sleep(d)
+	}
+	return nil
+}
+
+// failingBucket fails the first n reads (Get / GetRange / Attributes): a bucket outage while the
+// index-header is being downloaded lazily.
+type failingBucket struct {
+	objstore.Bucket
+	left atomic.Int64
+}
+
+func (b *failingBucket) fail() bool { return b.left.Add(-1) >= 0 }
+
+func (b *failingBucket) Get(ctx context.Context, name string) (io.ReadCloser, error) {
+	if b.fail() {
+		return nil, errors.New("injected bucket outage")
+	}
+	return b.Bucket.Get(ctx, name)
+}
+
+func (b *failingBucket) GetRange(ctx context.Context, name string, off, length int64) (io.ReadCloser, error) {
+	if b.fail() {
+		return nil, errors.New("injected bucket outage")
+	}
+	return b.Bucket.GetRange(ctx, name, off, length)
+}
+
+func (b *failingBucket) Attributes(ctx context.Context, name string) (objstore.ObjectAttributes, error) {
+	if b.fail() {
+		return objstore.ObjectAttributes{}, errors.New("injected bucket outage")
+	}
+	return b.Bucket.Attributes(ctx, name)
+}
 
 // the last two hand out strings that alias the mmapped index-header ("aliasing" scenarios only)
 var c16Calls = []string{"PostingsOffsets", "PostingsOffset", "LabelNames", "IndexVersion", "LabelValues", "LookupSymbol"}
@@ -207,8 +260,24 @@ func TestC16(t *testing.T) {
 		ngen = 0
 		gmu.Unlock()
 		ctx := context.Background()
-		pool := indexheader.NewReaderPool(log.NewNopLogger(), true, idle, indexheader.NewReaderPoolMetrics(nil), indexheader.AlwaysEagerDownloadIndexHeader)
-		rd, err := pool.NewBinaryReader(ctx, log.NewNopLogger(), w.bkt, w.hdr, w.id, sampling, nil)
+		// lazydl: the pool is configured to download the index-header file lazily: nothing is written
+		// when the reader is created, the first call that loads it builds the file from the bucket
+		// (into a fresh directory), racing with sweeps and Close; dlfail > 0: the first dlfail bucket
+		// reads fail (the load error is sticky: every later call must return a clean error).
+		dlFunc, hdrDir := indexheader.AlwaysEagerDownloadIndexHeader, w.hdr
+		var bkt objstore.Bucket = w.bkt
+		if vt.Bool(c["lazydl"]) {
+			dlFunc, hdrDir = indexheader.AlwaysLazyDownloadIndexHeader, filepath.Join(root, fmt.Sprintf("hdr-%d", caseID))
+			fb := &failingBucket{Bucket: w.bkt}
+			fb.left.Store(int64(vt.Int(c["dlfail"])))
+			bkt = fb
+		}
+		pool := indexheader.NewReaderPool(log.NewNopLogger(), true, idle, indexheader.NewReaderPoolMetrics(nil), dlFunc)
+		var lg log.Logger = log.NewNopLogger()
+		if vt.Bool(c["slowlog"]) {
+			lg = &slowLogger{rnd: rand.New(rand.NewSource(vt.Int64(c["sseed"]) + 7))}
+		}
+		rd, err := pool.NewBinaryReader(ctx, lg, bkt, hdrDir, w.id, sampling, nil)
 		if err != nil {
 			t.Fatalf("pool reader: %v", err)
 		}
@@ -296,6 +365,9 @@ func TestC16(t *testing.T) {
 			lr.Close()
 		}
 		cur.Store(nil)
+		if vt.Bool(c["lazydl"]) && !stall {
+			os.RemoveAll(hdrDir)
+		}
 		tr.Emit(vt.Event{"ev": "End", "case": caseID, "stall": stall})
 	}
 
@@ -304,7 +376,7 @@ func TestC16(t *testing.T) {
 		return
 	}
 	rnd := vt.Rand()
-	reps := vt.Pick(3, 12)
+	reps := vt.Pick(6, 12)
 	for _, tc := range vt.TLCCases(t) {
 		for rep := 0; rep < reps; rep++ {
 			idle := 1000000 // no sweeps in the TLC shape: the idle timeout never expires
@@ -315,7 +387,7 @@ func TestC16(t *testing.T) {
 			if vt.Bool(tc["closer"]) {
 				closes = 1 + rnd.Intn(3)
 			}
-			run(vt.Case{"src": "tlc", "readers": vt.Int(tc["readers"]), "calls": vt.Int(tc["calls"]), "idle_us": idle, "closes": closes, "aliasing": rep%3 == 2, "fast": false, "sseed": rnd.Int63n(1 << 40)})
+			run(vt.Case{"src": "tlc", "readers": vt.Int(tc["readers"]), "calls": vt.Int(tc["calls"]), "idle_us": idle, "closes": closes, "aliasing": rep%3 == 2, "fast": false, "lazydl": rep%2 == 1, "dlfail": 0, "slowlog": rep%2 == 0, "sseed": rnd.Int63n(1 << 40)})
 		}
 	}
 	n := vt.Pick(60, 300)
@@ -325,11 +397,12 @@ func TestC16(t *testing.T) {
 			closes = 1 + rnd.Intn(30)
 		}
 		readers, calls := 1+rnd.Intn(vt.Pick(4, 8)), 1+rnd.Intn(vt.Pick(12, 25))
-		fast := i%4 == 1
+		fast := i%3 == 1
 		if fast {
 			closes = readers * calls
 		}
 		run(vt.Case{"src": "rand", "readers": readers, "calls": calls,
-			"idle_us": []int{100, 300, 1000, 3000}[rnd.Intn(4)], "closes": closes, "aliasing": i%3 == 2, "fast": fast, "sseed": rnd.Int63n(1 << 40)})
+			"idle_us": []int{100, 300, 1000, 3000}[rnd.Intn(4)], "closes": closes, "aliasing": i%3 == 2, "fast": fast,
+			"lazydl": i%5 >= 3, "dlfail": []int{0, 0, 1, 3}[rnd.Intn(4)], "slowlog": i%2 == 1, "sseed": rnd.Int63n(1 << 40)})
 	}
 }
